@@ -124,7 +124,9 @@ func (c *Client) do(req *http.Request, redirects int, authenticated bool) (resp 
 			// Refresh the body reader so the body can be sent again
 			req.Body = io.NopCloser(bytes.NewReader(body))
 		}
-		io.Copy(io.Discard, resp.Body)
+		// The body of the challenge is the peer's and may never end: read no more of it than net/http itself reads of a
+		// response it does not hand to the caller (enough for a small body, so that the connection can be reused).
+		io.CopyN(io.Discard, resp.Body, 2<<10)
 		resp.Body.Close()
 		return c.do(req, redirects, true)
 	}
